@@ -140,6 +140,7 @@ type cluster struct {
 	viols    []violation
 	violSeen map[string]bool
 	tainted   string
+	figure8   bool
 	secondary []string
 	unreal   string
 	stats    map[string]int
@@ -154,6 +155,7 @@ type cluster struct {
 	modelSkip            string // model validation stops at tokCut (a real behaviour without model counterpart)
 	tokCut               int
 	c01AtCut             bool
+	inconsAtCut          int
 	inconsistentAttaches int
 
 	mon *monitor
@@ -325,11 +327,22 @@ func (c *cluster) violate(sig, detail string) {
 		c.secondary = append(c.secondary, sig)
 		return
 	}
+	if c.figure8 && (strings.HasPrefix(sig, "commit:") || strings.HasPrefix(sig, "read:") || strings.HasPrefix(sig, "lin:") || strings.HasPrefix(sig, "leader:")) {
+		// a served-then-rolled-back entry (figure 8) leaves a node whose database has applied an entry that no longer
+		// exists in any log (the entries that later take its offset are never applied there: the database's commit
+		// offset is already past them); what that node's commit offset, database or readers show afterwards is a
+		// consequence, not a new finding
+		c.secondary = append(c.secondary, sig)
+		return
+	}
 	c.viols = append(c.viols, violation{sig, fmt.Sprintf("[step %d] %s", c.stepNo, detail)})
 	for _, p := range tainting {
 		if strings.HasPrefix(sig, p) {
 			c.tainted = sig
 		}
+	}
+	if strings.HasPrefix(sig, "figure8:") {
+		c.figure8 = true
 	}
 }
 
